@@ -87,8 +87,67 @@ def run_unit(E, u, debug_flag=True):
     return res
 
 
+def _abstract_lambdas(fs):
+    """replace every Lambda term by a fresh array constant (weaker formula: unsat carries over, sat is a candidate)"""
+    cache = {}
+    cnt = [0]
+
+    def walk(t):
+        if z3.is_quantifier(t) and t.is_lambda():
+            key = t.get_id()
+            if key not in cache:
+                cnt[0] += 1
+                cache[key] = (z3.Const('λabs%d' % cnt[0], t.sort()), t)
+            return cache[key][0]
+        if z3.is_app(t) and t.num_args() > 0:
+            kids = [walk(c) for c in t.children()]
+            return t.decl()(*kids)
+        return t
+    return [walk(f) for f in fs]
+
+
+def concretize(m, v, depth=0):
+    """python value of a symbolic value under model m (for native replay)"""
+    from .values import VInt, VBool, VSeq, VTuple, VBV, NONE
+    if isinstance(v, dict):
+        return {k: concretize(m, x) for k, x in v.items()}
+    if isinstance(v, (list, tuple)):
+        return [concretize(m, x) for x in v]
+    if isinstance(v, (str, int, bool, float)) or v is None:
+        return v
+    if v is NONE:
+        return None
+    if isinstance(v, VInt):
+        return m.eval(v.t, model_completion=True).as_long()
+    if isinstance(v, VBV):
+        return m.eval(v.t, model_completion=True).as_long()
+    if isinstance(v, VBool):
+        return bool(z3.is_true(m.eval(v.t, model_completion=True)))
+    if isinstance(v, VTuple):
+        return [concretize(m, x) for x in v.items]
+    if isinstance(v, VSeq):
+        n = m.eval(v.n, model_completion=True).as_long()
+        n = max(0, min(n, 5000))
+        els = []
+        for k in range(n):
+            e = v.at(z3.IntVal(k))
+            if isinstance(e, int):
+                els.append(e)
+            elif z3.is_expr(e):
+                els.append(m.eval(e, model_completion=True).as_long())
+            else:
+                els.append(concretize(m, e))
+        if v.kind == 'bytes':
+            return {'__bytes__': bytes(x % 256 for x in els).hex()}
+        if v.kind == 'str':
+            return ''.join(chr(max(0, min(x, 0x10FFFF))) if not (0xD800 <= x <= 0xDFFF) else '?' for x in els)
+        return els
+    return repr(v)
+
+
 def check_ob(ob, timeout_ms=20000, seed=0):
-    """discharge one obligation with z3; fills status in {'unsat','sat','unknown'}"""
+    """discharge one obligation with z3; fills status in {'unsat','sat','sat?','unknown'}
+    'sat?' = satisfiable after abstracting Lambda terms (candidate counterexample, needs native confirmation)"""
     t0 = time.time()
     s = z3.Solver()
     s.set('timeout', timeout_ms)
@@ -97,19 +156,33 @@ def check_ob(ob, timeout_ms=20000, seed=0):
     s.add(*ob.pc)
     s.add(z3.Not(ob.goal))
     r = s.check()
+    status = 'unsat' if r == z3.unsat else ('sat' if r == z3.sat else 'unknown')
+    if status == 'unknown':
+        ob.note = s.reason_unknown()
+        try:
+            fs = _abstract_lambdas(list(ob.pc) + [z3.Not(ob.goal)])
+            s2 = z3.Solver()
+            s2.set('timeout', timeout_ms)
+            s2.add(*fs)
+            r2 = s2.check()
+            if r2 == z3.unsat:
+                status = 'unsat'
+                ob.note = 'z3 (lambdas abstracted)'
+            elif r2 == z3.sat:
+                status = 'sat?'
+                s = s2
+        except z3.Z3Exception:
+            pass
     ob.time = time.time() - t0
-    if r == z3.unsat:
-        ob.status = 'unsat'
-    elif r == z3.sat:
-        ob.status = 'sat'
+    ob.status = status
+    if status in ('sat', 'sat?'):
         try:
             m = s.model()
-            ob.model = {str(d): str(m[d]) for d in m.decls() if m[d] is not None and len(str(m[d])) < 200}
-        except Exception:
-            ob.model = {}
-    else:
-        ob.status = 'unknown'
-        ob.note = s.reason_unknown()
+            ob.model = {str(d): str(m[d]) for d in m.decls() if m[d] is not None and len(str(m[d])) < 200 and not str(d).startswith('λ')}
+            if ob.template is not None:
+                ob.native = concretize(m, ob.template)
+        except Exception as ex:
+            ob.model = {'_model_error': repr(ex)}
     return ob
 
 
